@@ -60,7 +60,7 @@ class GreensFuncNumpy(Contract):
     def samples(self, rng, nrng, tier):
         # the dangerous distances: 0, 1e-12, 1-ulp, 1, e, 1e8
         d = np.array([0.0, 1e-12, 1 - 2**-53, 1.0, math.e, 1e8, 0.5, 2.0])
-        for md in (0.0, 1e-3, 1.0):
+        for md in (0.0, 1e-3, 1.0, 150.0, 1e3):  # x**x leaves float64 from x ~ 143.3
             yield (d, np.zeros_like(d), md), {}
             yield (np.zeros_like(d), -d, md), {}
         for _ in range(10):
